@@ -229,6 +229,13 @@ class Project:
         self.write_config(cfg)
         for d in subdirs:
             os.makedirs(os.path.join(self.dir, d), exist_ok=True)
+        if self.invoke.get("stale_tmp"):
+            # an earlier gwf process died while it was writing its state: half-written temporary files lie about
+            os.makedirs(os.path.join(self.dir, ".gwf"), exist_ok=True)
+            for fn in (".gwfconf.json.tmp", ".gwf/spec-hashes.json.tmp", f".gwf/{backend}-backend-tracked.json.tmp"):
+                with open(os.path.join(self.dir, fn), "w") as f:
+                    f.write('{"half": "writ')
+            self.invoke_labels.add("stale-temporary-state-files")
 
     # ------------------------------------------------------------ files
     def path(self, rel):
@@ -354,6 +361,8 @@ class Project:
                 rel = os.path.relpath(p, self.dir)
                 if rel.startswith("_store" + os.sep):
                     continue  # data kept elsewhere and linked into the project: seen through its link
+                if rel.endswith(".json.tmp") and (rel.startswith(".gwf" + os.sep) or rel == ".gwfconf.json.tmp"):
+                    continue  # scratch files of gwf's own state writing: they come and go
                 try:
                     st = os.stat(p)  # a symbolic link shows the file it points to
                 except FileNotFoundError:
